@@ -114,9 +114,16 @@ def analyse(facts, tier):
 
     # ---- R1
     lb = [f for f in facts.fns.get('OPNMIDIplay::LoadBank', []) if 'FileAndMemReader' in f.sig][0]
+    TAG_ = facts.enums.get('PercussionTag')
+    if not any(isinstance(y, dict) and const_of(y) == TAG_ for y in walk(lb.tree)):
+        # the copy of the banks (and with it the key) may live in a local helper of the loader
+        for x in calls_in(lb.tree):
+            for cf in facts.fns.get(callee_name(x), [])[:1]:
+                if is_local_helper(lb, cf) and any(isinstance(y, dict) and const_of(y) == TAG_ for y in walk(cf.tree)):
+                    lb = cf
     gb = facts.fn('opn2_getBank')
     gi = facts.fn('opn2_getBankId')
-    non = facts.fn('OPNMIDIplay::realTime_NoteOn')
+    non = deref_view(facts.fn('OPNMIDIplay::realTime_NoteOn'), ('m_insBanks',))
     def decl_init(fn, name):
         for b, j, st in fn.cfg.stmts():
             if st['s'].get('k') == 'DeclStmt':
@@ -423,8 +430,8 @@ def analyse(facts, tier):
     for b, j, st in nu.cfg.stmts():
         for x in calls_in(st['s']):
             if short(callee_name(x)) == 'setPatch':
-                gf = guard_facts(nu, b, st, loops=False)
-                okp = any(f_[0] == 'truth' and f_[2] and mentions(f_[1], ref_named('Upd_Patch')) for f_ in gf) and len(gf) <= 3
+                gf = expand_locals(nu, guard_facts(nu, b, st, loops=False))       # the request test may have a name
+                okp = any(((f_[0] == 'truth' and f_[2]) or (f_[0] == 'cmp' and f_[1] == '!=' and const_of(f_[3]) == 0)) and mentions(f_[1] if f_[0] == 'truth' else f_[2], ref_named('Upd_Patch')) for f_ in gf) and len(gf) <= 3
     obls.append(Obl('C12.R4', nu.name, 'setPatch on every Upd_Patch', nu.loc, 'discharged' if okp else 'finding', why='synth.setPatch(c, ins.ains) under props_mask & Upd_Patch' if okp else 'the chip-channel instrument cache is not refreshed on patch updates'))
     ok_read = any(mentions(s_, lambda y: y.get('k') == 'ArraySubscriptExpr' and y.get('ext') == 128 and mentions(y['b'], member_named('ins'))) for b, j, st, s_, owner, bind in with_helpers(facts, non))
     obls.append(Obl('C12.R4', non.name, 'note-on reads the bank map entries', non.loc, 'discharged' if ok_read else 'finding', why='ains = &bnk->ins[midiins] from synth.m_insBanks.find(..)'))
